@@ -79,6 +79,7 @@ def ensure_facts(cfg="dev"):
         stamp = os.path.join(out, "OK")
         if os.path.exists(stamp) and all(os.path.exists(os.path.join(out, c + ".json")) for c in EXPECTED_CRATES):
             os.utime(stamp)
+            os.utime(os.path.dirname(out))          # the collector below goes by the age of the per-tree directory
             return out
         if os.path.isdir(out):
             shutil.rmtree(out)
@@ -130,7 +131,10 @@ def _gc(d, keep):
     except OSError:
         return
     ents.sort(reverse=True)
-    for _, e in ents[keep:]:
+    now = time.time()
+    for mt, e in ents[keep:]:
+        if now - mt < 2 * 3600:
+            continue        # possibly in use by a check that is still running (other trees are analysed concurrently)
         shutil.rmtree(os.path.join(d, e), ignore_errors=True)
 
 
